@@ -194,11 +194,14 @@ impl store::Cob for Issue {
     ) -> Result<(), Error> {
         let doc = op.identity_doc(repo)?.ok_or(Error::MissingIdentity)?;
         let concurrent = concurrent.into_iter().collect::<Vec<_>>();
+        // N.b. the actions are applied to a copy, so that an operation that is rejected
+        // half-way doesn't leave the effects of its first actions behind.
+        let mut next = self.clone();
 
         for action in op.actions {
             log::trace!(target: "issue", "Applying {} {action:?}", op.id);
 
-            if let Err(e) = self.op_action(
+            if let Err(e) = next.op_action(
                 action,
                 op.id,
                 op.author,
@@ -211,6 +214,8 @@ impl store::Cob for Issue {
                 return Err(e);
             }
         }
+        *self = next;
+
         Ok(())
     }
 }
